@@ -605,6 +605,150 @@ func genFactsText(L *loader) (string, any, []string) {
 		}
 	}
 
+	// ---------------------------------------------------------------- JSON shape of the update types (tree model, C20Json)
+	structTags := func(pkgpath, tn string) ([]string, bool) {
+		p := L.pkgs[coreMod+"/"+pkgpath]
+		if p == nil {
+			return nil, false
+		}
+		obj := p.Scope().Lookup(tn)
+		if obj == nil {
+			return nil, false
+		}
+		st, ok := obj.Type().Underlying().(*types.Struct)
+		if !ok {
+			return nil, false
+		}
+		var tags []string
+		for i := 0; i < st.NumFields(); i++ {
+			tag := st.Tag(i)
+			if j := strings.Index(tag, `json:"`); j >= 0 {
+				rest := tag[j+6:]
+				tags = append(tags, rest[:strings.IndexByte(rest, '"')])
+			} else {
+				tags = append(tags, st.Field(i).Name())
+			}
+		}
+		return tags, true
+	}
+	if tags, ok := structTags("consensus", "elementLeafJSON"); ok {
+		f.defStrList("elementLeafJSONTags", tags, "consensus.elementLeafJSON: JSON names (with options) of its fields, in order")
+	} else {
+		f.fail("consensus.elementLeafJSON (the JSON form of an accumulator leaf) not found")
+	}
+	if tags, ok := structTags("types", "V2FileContractRenewal"); ok {
+		f.defStrList("renewalJSONTags", tags, "types.V2FileContractRenewal: JSON field names")
+	} else {
+		f.fail("types.V2FileContractRenewal not found")
+	}
+	// the anonymous struct V2StorageProof.MarshalJSON marshals
+	if fd := f.fn("types.V2StorageProof.MarshalJSON"); fd != nil {
+		var tags []string
+		ast.Inspect(fd.Body, func(x ast.Node) bool {
+			if st, ok := x.(*ast.StructType); ok && len(tags) == 0 {
+				for _, fl := range st.Fields.List {
+					if fl.Tag != nil {
+						if t, err := strconv.Unquote(fl.Tag.Value); err == nil {
+							if j := strings.Index(t, `json:"`); j >= 0 {
+								rest := t[j+6:]
+								tags = append(tags, rest[:strings.IndexByte(rest, '"')])
+							}
+						}
+					}
+				}
+			}
+			return true
+		})
+		if len(tags) == 0 {
+			f.fail("types.V2StorageProof.MarshalJSON: no tagged struct literal found")
+		} else {
+			f.defStrList("v2StorageProofJSONTags", tags, "types.V2StorageProof.MarshalJSON: JSON field names of the struct it marshals")
+		}
+	}
+	// resolution type tags (constants of consensus/state.go, the ones the diff splice writes)
+	if p := L.pkgs[coreMod+"/consensus"]; p != nil {
+		var tags []string
+		for _, n := range []string{"v2ResolutionRenewal", "v2ResolutionStorageProof", "v2ResolutionExpiration"} {
+			if c, ok := p.Scope().Lookup(n).(*types.Const); ok && c.Val().Kind() == constant.String {
+				tags = append(tags, constant.StringVal(c.Val()))
+			} else {
+				f.fail("consensus.%s: constant not found", n)
+			}
+		}
+		f.defStrList("resolutionTags", tags, "consensus: the `type` strings of renewal, storage proof, expiration")
+	}
+	// how MarshalJSON fills the maps and how UnmarshalJSON files their entries
+	filesByKey := func(key, mapField, target string) bool {
+		// a `for k, v := range js.<mapField> { <recv>.<e?u>.<target>[k] = v }` loop
+		fd := f.fn(key)
+		if fd == nil {
+			return false
+		}
+		found := false
+		ast.Inspect(fd.Body, func(x ast.Node) bool {
+			rs, ok := x.(*ast.RangeStmt)
+			if !ok || rs.Key == nil || rs.Value == nil {
+				return true
+			}
+			if !strings.HasSuffix(types.ExprString(rs.X), "."+mapField) || len(rs.Body.List) != 1 {
+				return true
+			}
+			as, ok := rs.Body.List[0].(*ast.AssignStmt)
+			if !ok || len(as.Lhs) != 1 || len(as.Rhs) != 1 {
+				return true
+			}
+			ix, ok := as.Lhs[0].(*ast.IndexExpr)
+			if !ok {
+				return true
+			}
+			if strings.HasSuffix(types.ExprString(ix.X), "."+target) && types.ExprString(ix.Index) == types.ExprString(rs.Key) &&
+				types.ExprString(as.Rhs[0]) == types.ExprString(rs.Value) {
+				found = true
+			}
+			return true
+		})
+		return found
+	}
+	f.defBool("applyUpdateFilesLeavesByKey", filesByKey("consensus.ApplyUpdate.UnmarshalJSON", "UpdatedLeaves", "updated"),
+		"ApplyUpdate.UnmarshalJSON: `for i, els := range js.UpdatedLeaves { au.eau.updated[i] = els }` — entries are filed under their map key")
+	f.defBool("applyUpdateFilesGrowthByKey", filesByKey("consensus.ApplyUpdate.UnmarshalJSON", "TreeGrowth", "treeGrowth"),
+		"ApplyUpdate.UnmarshalJSON: `for i, els := range js.TreeGrowth { au.eau.treeGrowth[i] = els }`")
+	f.defBool("revertUpdateFilesLeavesByKey", filesByKey("consensus.RevertUpdate.UnmarshalJSON", "UpdatedLeaves", "updated"),
+		"RevertUpdate.UnmarshalJSON: `for i, els := range js.UpdatedLeaves { ru.eru.updated[i] = els }`")
+	writesByIndex := func(key, arr, mapField string) bool {
+		// `for i, els := range <recv>.<arr> { if len(els) > 0 { js.<mapField>[i] = els } }`
+		fd := f.fn(key)
+		if fd == nil {
+			return false
+		}
+		found := false
+		ast.Inspect(fd.Body, func(x ast.Node) bool {
+			rs, ok := x.(*ast.RangeStmt)
+			if !ok || rs.Key == nil || rs.Value == nil || !strings.HasSuffix(types.ExprString(rs.X), "."+arr) {
+				return true
+			}
+			ast.Inspect(rs.Body, func(y ast.Node) bool {
+				as, ok := y.(*ast.AssignStmt)
+				if !ok || len(as.Lhs) != 1 {
+					return true
+				}
+				if ix, ok := as.Lhs[0].(*ast.IndexExpr); ok && strings.HasSuffix(types.ExprString(ix.X), "."+mapField) &&
+					types.ExprString(ix.Index) == types.ExprString(rs.Key) && types.ExprString(as.Rhs[0]) == types.ExprString(rs.Value) {
+					found = true
+				}
+				return true
+			})
+			return true
+		})
+		return found
+	}
+	f.defBool("applyUpdateWritesLeavesByIndex", writesByIndex("consensus.ApplyUpdate.MarshalJSON", "updated", "UpdatedLeaves"),
+		"ApplyUpdate.MarshalJSON: js.UpdatedLeaves[i] = au.eau.updated[i] for the non-empty entries")
+	f.defBool("applyUpdateWritesGrowthByIndex", writesByIndex("consensus.ApplyUpdate.MarshalJSON", "treeGrowth", "TreeGrowth"),
+		"ApplyUpdate.MarshalJSON: js.TreeGrowth[i] = au.eau.treeGrowth[i] for the non-empty entries")
+	f.defBool("revertUpdateWritesLeavesByIndex", writesByIndex("consensus.RevertUpdate.MarshalJSON", "updated", "UpdatedLeaves"),
+		"RevertUpdate.MarshalJSON: js.UpdatedLeaves[i] = ru.eru.updated[i] for the non-empty entries")
+
 	// ---------------------------------------------------------------- census of types with a text/JSON form
 	// (the harness sweeps a committed list, harness/props/c20_types.go; this census of the
 	// CURRENT tree lets it notice a type that appeared or disappeared)
